@@ -280,6 +280,26 @@ def soft_loop(ctx, crate, crs, tag):
         br = [(bb, tt) for bb, tt in b.calls() if tt.get("f") and tt["f"]["name"] == "branch" and tt["args"] and
               (operand_place(tt["args"][0]) or {}).get("l") == dl]
         ok = bool(br)
+        if not br:
+            # the result is taken apart by hand (`match run_sat(..) { Ok(_) => .., Err(e) => return Err(e) }`): the `bool` inside Ok is
+            # never looked at - the only reads of the Ok side may end in dead temporaries
+            from facts import iter_places_read
+            ok = True
+            seen_match = False
+            for bb2, j2, p2, kind2 in iter_places_read(b):
+                if p2["l"] != dl:
+                    continue
+                if kind2 == "discr":
+                    seen_match = True
+                    continue
+                if any(isinstance(e, dict) and e.get("as") == "Ok" for e in p2.get("p", [])):
+                    if j2 == "term":
+                        ok = False
+                    else:
+                        st2 = b.blocks[bb2]["stmts"][j2]
+                        if st2["k"] != "assign" or st2["p"].get("p") or not _dead(b, st2["p"]["l"]):
+                            ok = False
+            ok = ok and seen_match
         for bb, tt in br:
             # no assert on the payload (unlike the hard run)
             # the Continue payload may be copied into a temporary, but that temporary must be dead (no assert / branch on it)
